@@ -196,6 +196,10 @@ def r2_slices(program, rep, inline):
     params = [a.arg for a in fn.args.args]
     if len(params) != 2:
         raise AnalysisError("__getitem__ signature changed")
+    if any(isinstance(c_, ast.Call) and isinstance(c_.func, ast.Attribute)
+           and c_.func.attr == "indices" for c_ in ast.walk(fn)):
+        raise AnalysisError("__getitem__ clips the slice with slice.indices"
+                            "(): the interpreter has no model of it")
     if any(getattr(h, "_virtual", False) for h in ast.walk(fn)):
         raise AnalysisError("__getitem__ computes the bounds of the new view "
                             "in helper methods the reference tree did not "
@@ -540,10 +544,27 @@ def r6_truncation_warning(program, rep):
 def check(program, rep):
     program.module(MOD)
     inline = _inline_props(program)
-    rep.guard("C13-R0", r_invariant, program, rep)
-    rep.guard("C13-R1", r1_confinement, program, rep, inline)
-    rep.guard("C13-R2", r2_slices, program, rep, inline)
-    rep.guard("C13-R3", r3_seek, program, rep, inline)
+    # the proofs are about a view whose state is the pair (_start_address,
+    # _end_address) stored by __init__ plus _offset; another representation
+    # (e.g. start + length, with the end derived) is outside them
+    init = program.get(CLS + ".__init__")
+    stored = set(chain(t) for n in ast.walk(init)
+                 if isinstance(n, ast.Assign) for t in n.targets
+                 if chain(t) and chain(t).startswith("self."))
+    derived = [m.name for m in class_methods(program, CLS)
+               if m.name in ("_start_address", "_end_address", "_offset")]
+    if not {"self._start_address", "self._end_address",
+            "self._offset"} <= stored or derived:
+        rep.undecided(["C13-R0", "C13-R1", "C13-R2", "C13-R3", "C13-R4"],
+                      "SlicedMemoryIO no longer keeps its region as the "
+                      "stored pair (_start_address, _end_address) and its "
+                      "position as _offset: the interpreter's model of the "
+                      "view does not apply to this representation")
+    else:
+        rep.guard("C13-R0", r_invariant, program, rep)
+        rep.guard("C13-R1", r1_confinement, program, rep, inline)
+        rep.guard("C13-R2", r2_slices, program, rep, inline)
+        rep.guard("C13-R3", r3_seek, program, rep, inline)
     rep.guard("C13-R5", r5_guards, program, rep)
     rep.guard("C13-R6", r6_truncation_warning, program, rep)
     rep.assume("distinct local names are not aliases of one mutable object")
